@@ -86,6 +86,15 @@ func (ex *Exec) evalModPart(part string, se *SpecEnv) (locs []modLoc) {
 		}
 		return locs
 	}
+	if strings.HasPrefix(part, "maps ") {
+		t := ex.eng.parseType(se.pkg, strings.TrimSpace(part[5:]))
+		mt, ok := t.(*types.Map)
+		if t == nil || !ok {
+			panic(specErr{"maps <map type> expected in modifies: " + part})
+		}
+		d, vn, l, ks, vs := ex.mapComps(mt)
+		return []modLoc{{comp: d, sort: ArraySort(SInt, ArraySort(ks, SBool))}, {comp: vn, sort: ArraySort(SInt, ArraySort(ks, vs))}, {comp: l, sort: ArraySort(SInt, ex.vc.IntSort())}}
+	}
 	if strings.HasPrefix(part, "global ") {
 		name := strings.TrimSpace(part[7:])
 		obj, _ := se.pkg.Scope().Lookup(name).(*types.Var)
@@ -199,6 +208,10 @@ func (ex *Exec) modifiesComps(fc *FuncContract, fn *ssa.Function) []string {
 		}
 	}
 	savedLines := len(ex.vc.lines)
+	for _, l := range fc.Lets {
+		v, t := se.eval(l.Expr)
+		se.names[l.Name] = specBinding{v, t}
+	}
 	locs, all := ex.evalModifies(fc.Modifies, se)
 	ex.vc.lines = ex.vc.lines[:savedLines]
 	if all {
@@ -677,6 +690,12 @@ func (eng *Engine) VerifyFunc(fn *ssa.Function, fc *FuncContract) (res *FuncResu
 	}
 	nret := 0
 	npanic := 0
+	var lastCover *Obligation
+	defer func() {
+		if lastCover != nil {
+			lastCover.LastRet = true
+		}
+	}()
 	for _, x := range exits {
 		if x.isPanic {
 			npanic++
@@ -695,8 +714,10 @@ func (eng *Engine) VerifyFunc(fn *ssa.Function, fc *FuncContract) (res *FuncResu
 		if fc.HasMod {
 			ex.frameObligations(fr, fc, entry, x.st, x.reach, fmt.Sprintf("%s/frame@ret%d", name, nret), se)
 		}
-		if _, ok := fc.Opts["cover"]; ok {
-			vc.Oblige(&Obligation{Name: fmt.Sprintf("%s/cover@ret%d", name, nret), Kind: "cover", Tags: res.Tags, Guard: x.reach, Goal: TFalse, WantSat: true, Func: name, Note: "return is reachable under the precondition"})
+		{
+			// vacuity guard: the return is reachable together with every assumption made on the way
+			vc.Oblige(&Obligation{Name: fmt.Sprintf("%s/cover@ret%d", name, nret), Kind: "cover", Tags: res.Tags, Guard: x.reach, Goal: TFalse, WantSat: true, Func: name, Note: "return is reachable under the precondition and all assumed callee contracts (vacuity guard)"})
+			lastCover = vc.obls[len(vc.obls)-1]
 		}
 	}
 	return res
